@@ -34,7 +34,7 @@ def prop(pid, level, runs, rule, technique, text, note, variants=None, assumptio
                       assumptions=list(assumptions) + COMMON_ASSUMPTIONS, design_ref=design_ref, **kw)
 
 
-prop("C12", "exploration", (3000, 60000),
+prop("C12", "exploration", (24000, 60000),
      rule="one run = one seeded tree scenario (hasher, leaf-count 2^0..2^10, widths 1..20 on both sides of the hash_or_noop threshold, cap height, "
           "1..4 matrix heights, fork-join schedule with 1..16 simulated workers); a case = one oracle check of that scenario (cap vs REF-MERKLE, "
           "schedule independence, an opening, or one fault on an opening: other leaf / other position / each altered sibling / altered or swapped cap entry / "
@@ -46,7 +46,7 @@ prop("C12", "exploration", (3000, 60000),
           "(leaf, position, each sibling, cap entry) that must be rejected; path compression round-trips on seeded index multisets.",
      note="Trusts the hash primitives (hash_or_noop/two_to_one) and the shim's fidelity to rayon's fork-join semantics; torn writes are not modelled.")
 
-prop("C01", "exploration", (1500, 40000),
+prop("C01", "exploration", (4000, 40000),
      rule="one run = one seeded scenario: program (3..60 ops from a random subset of op families: arithmetic, extension arithmetic, bit/limb decomposition, "
           "range checks, selection/logic, random access, exponentiation, Poseidon hashing, Merkle membership, reductions, lookups, assertions) with boundary-biased "
           "satisfying inputs x admissible CircuitConfig/FriConfig (row widths, constants, challenges 1-3, zk on/off, rate, cap height, pow bits, Fixed/ConstantArity/MinSize, "
@@ -59,7 +59,7 @@ prop("C01", "exploration", (1500, 40000),
           "(u128 Goldilocks, schoolbook extension, textbook Poseidon). It is also the fault-free configuration against which the fault-injecting checks are calibrated.",
      note="Sampling over programs/configurations; the reference evaluator reads only constant tables from the library. Completeness failures of probability ~2^-50 by design are not special-cased.")
 
-prop("C03", "fault_enumeration", (60, 900),
+prop("C03", "fault_enumeration", (240, 900),
      rule="one run = one accepted honest proof (seeded program x configuration with num_query_rounds*lde_bits >= 64 x schedule x entropy); a case = one message fault on it: "
           "an element fault (+1, zero, random, neighbour's value) at an element position of the serialised proof tree (every cap entry word/byte, every opening, every query round's "
           "leaves / siblings / coset evaluations, commit-phase caps, final polynomial, pow witness, public inputs; quick: first+last+2 random positions per component, thorough: "
@@ -72,7 +72,7 @@ prop("C03", "fault_enumeration", (60, 900),
           "under another circuit's verifier data.",
      note="A fault on absorbed data is rejected only with overwhelming probability (<= 2^-64 by the generator's floor q*log2(N) >= 64); panics count as 'not accepted' here and are reported under C18.")
 
-prop("C04", "fault_enumeration", (160, 2500),
+prop("C04", "fault_enumeration", (640, 2500),
      rule="one run = one accepted honest PLONK proof read as a protocol history; a case = one alteration of one transcript component: EVERY absorbed element of the proof "
           "(every word/byte of every cap entry, every opening, every commit-phase cap entry, every final-polynomial coefficient, the pow witness), every public input, every "
           "byte of the circuit digest, and every FRI/degree parameter of the statement (rate, cap height, pow bits, query count, strategy kind and parameter, hiding, degree bits, "
@@ -83,7 +83,7 @@ prop("C04", "fault_enumeration", (160, 2500),
           "with a causality oracle: all challenges drawn after the altered component must change. Demands dependence, not a particular absorption format.",
      note="PLONK transcripts (2/3 of runs; Poseidon and Keccak, with and without lookups) and STARK transcripts (1/3 of runs; with and without auxiliary lookup polynomials and quotient; config fields, public inputs, trace/auxiliary/quotient caps, openings, FRI messages). The STARK trace length is not a statement field of the API (it is recovered from the proof shape) and is not altered. A challenge word may coincide by chance with probability 2^-64; the index vector is only demanded to change when N^-q <= 2^-64.")
 
-prop("C16", "exploration", (400, 8000),
+prop("C16", "exploration", (800, 8000),
      rule="one run = one accepted honest proof of a collision-biased scenario (tiny circuits: LDE domains 2^5..2^8, 28-84 query rounds, all arity schedules, cap heights, "
           "with/without lookups and blinding, Poseidon/Keccak); cases: (a) compress / decompress identity, verify_compressed accepts, compressed bytes round-trip; "
           "(b) +1 faults at first/last/random element positions of every component of the compressed message: verify_compressed and decompress-then-verify give the same verdict; "
@@ -107,7 +107,7 @@ prop("C19", "exploration", (40, 600),
      note="Thread scheduling is simulated (linearised fork-join); hash seeds are fixed per variant by CONST_RANDOM_SEED (4 seeds, not all); programs avoid BaseSumGate<B!=2>, which the default gate serializer cannot encode.",
      variants={"quick": ["v0", "v1", "v3"], "thorough": ["v0", "v1", "v2", "v3"]}, driver=True)
 
-prop("C17", "exploration", (240, 5000),
+prop("C17", "exploration", (720, 5000),
      rule="one run = crash/restart of one seeded circuit (programs over the gates and generators registered in the default serializers, lookups, zk, all configurations; Poseidon; every sixth run a recursion circuit verifying a proof of the program circuit, plain or conditional): "
           "every encodable state (proof, compressed proof, verifier-only, common, verifier circuit data, prover circuit data, whole circuit) is written, decoded by a fresh value, "
           "compared (Eq), re-encoded (byte-identical), and the restored circuit is exercised against the original in both directions (witness generation with the same entropy, "
@@ -118,7 +118,7 @@ prop("C17", "exploration", (240, 5000),
           "equal, re-encode identically and be interchangeable with the original for witness generation, proving and verifying; truncated inputs and failing writers are injected.",
      note="Equality of generators/gates in the library is by id only, so interchangeability (not Eq) is the deciding oracle. The tail of the compressed-proof encoding (unprefixed public inputs) is exempt from the truncation oracle by format design.")
 
-prop("C18", "fault_enumeration", (48, 1500),
+prop("C18", "fault_enumeration", (144, 1500),
      rule="one run = one accepted honest proof (plain and compressed form) on a hostile channel; a case = one malformed input handed to an entry point. Byte level into "
           "ProofWithPublicInputs::from_bytes / CompressedProofWithPublicInputs::from_bytes (then verify / verify_compressed if it decodes): truncations (boundaries + 40 random; "
           "every prefix for ~10% of thorough runs), bit flips, 8-byte word edits to {0,1,2,2^16,2^32,2^48,2^63,u64::MAX,p,...} at the tail / random aligned offsets (every aligned offset "
@@ -158,7 +158,7 @@ prop("C08", "exploration", (120, 4000),
           "other-table and table-cell fault injected into the real prover's witness.",
      note="Multiplicity cells are overwritten by the library inside prove (set_lookup_wires) and cannot be corrupted through the proving API; padding slots conflict with pre-set values and yield a prover error.")
 
-prop("C07", "fault_enumeration", (600, 12000),
+prop("C07", "fault_enumeration", (3000, 12000),
      rule="one run = either (mode gate, 2/3 of runs) a stand-alone row of one built-in gate in a seeded parameterisation (ArithmeticGate/ArithmeticExtensionGate/MulExtensionGate num_ops, "
           "BaseSumGate<2,3,4,8,16> limbs, ConstantGate, CosetInterpolationGate subgroup bits 1-4, ExponentiationGate power bits 1-66, PoseidonGate, PoseidonMdsGate, RandomAccessGate bits x row widths, "
           "ReducingGate / ReducingExtensionGate coefficients) filled by the gate's own generators from boundary-biased inputs, or (mode circuit) every gate row of a generated circuit's real witness "
@@ -173,7 +173,7 @@ prop("C07", "fault_enumeration", (600, 12000),
           "restricted wire; if it becomes stale the run is skipped, not failed. The degree check calls the library's gate_testing::test_low_degree under catch_unwind. CosetInterpolationGate degrees other than the default, PoseidonMdsGate "
           "and CosetInterpolationGate in real circuits come with the recursion circuits of C06.")
 
-prop("C05", "exploration", (300, 6000),
+prop("C05", "exploration", (3000, 6000),
      rule="one run = one FRI instance as a two-party system (1-4 oracles of 1-6 polynomials, blinding on/off, degree 2^2..2^8, 1-3 opening points, rate 1-3, cap height 0-3, "
           "Fixed / ConstantArityBits / MinSize schedules, queries so that q*lde_bits >= 64, Poseidon/Keccak; 1/3 of runs also the batched variant over 2-3 polynomial degrees). "
           "Cases: honest proof accepted (openings computed by the reference evaluator); arity-schedule invariants; wrong claimed opening (verifier given a lie under re-derived AND fixed challenges, and a prover that absorbs the lie); "
@@ -186,7 +186,7 @@ prop("C05", "exploration", (300, 6000),
      note="Only delta~1-far deviations are used (random other function, doubled degree); deviations close to a codeword are legitimately accepted with noticeable probability and are not in the catalogue. "
           "Batched instances are generated so that the folding schedule meets every smaller degree exactly (an assert of the batched prover).")
 
-prop("C09", "exploration", (1000, 20000),
+prop("C09", "exploration", (4000, 20000),
      rule="one run = one STARK instance from the simulator's family (definitions are data: polynomial first-row / last-row / transition / every-row constraints of degree 0-4 over 2-8 columns and 0-4 public inputs, "
           "including a definition without constraints = no quotient; recurrence traces of 2^2..2^10 rows; StarkConfig: 1-3 challenges, rate 1-3, cap, pow, Fixed/ConstantArity/MinSize, Poseidon/Keccak) under a seeded schedule. "
           "Cases: honest prove+verify; single trace-cell faults at rows {0, 1, mid, n-2, n-1 (wrap-around)}; a prover using a changed public input; element and list faults on every component of the accepted proof and its public inputs. "
@@ -196,7 +196,7 @@ prop("C09", "exploration", (1000, 20000),
      text="Seeded exploration of a family of STARK definitions in both directions: satisfying traces (also after changing unconstrained cells) prove and verify, every single-cell or public-input violation and every tampered proof is rejected.",
      note="The family is defined in the simulator (the repository's example STARKs are test-only); lookups and cross-table lookups are C10. Build variant v0 has debug assertions off, so the shipped prover reaches the verifier with violating traces.")
 
-prop("C10", "exploration", (300, 6000),
+prop("C10", "exploration", (3000, 6000),
      rule="one run = either (2/3) one STARK table with column lookups: 1-3 looking columns (single, scaled with constant, linear combination with another column, next-row), optional 0/1 filter columns (boolean-ness stated as a constraint), "
           "a table column (arithmetic progression, optionally with repeated values) and a frequencies column; constraint degree 2 or 3; 2^1..2^9 rows; or (1/3) a multi-table system of 2-3 tables (2^2..2^5 rows each, different lengths) with 1-2 cross-table lookups "
           "(several looking tables, a looking table repeated with another column set and filter = helper columns, two lookups over the same tables, value tuples of width 1-2, repeated tuples, 1-3 challenges), proved and verified by a small multi-table node that follows the "
@@ -209,7 +209,7 @@ prop("C10", "exploration", (300, 6000),
      note="Cross-table topologies are restricted to what the library supports: constraint degree 3, the looked table not among its looking tables, sides of a repeated looking table adjacent (the prover groups them with a consecutive group_by). "
           "Byzantine strategies beyond single-value faults: auxiliary (helper / running-sum) columns computed from the honest trace and committed next to a faulted trace (prove_with_commitment with a mismatching trace), and a cross-table running sum shifted by a constant with the prover's own CtlData. Extra looking values (ctl_extra_looking_sums) are not exercised.")
 
-prop("C06", "exploration", (48, 1200),
+prop("C06", "exploration", (192, 1200),
      rule="one run = one aggregator scenario: an inner circuit (seeded program, recursion-compatible configuration: Poseidon, with/without lookups and zero-knowledge, 1-3 challenges, arities, 2-8 queries, cap heights) "
           "and an outer circuit (add_virtual_proof_with_pis + verify_proof + re-exposed public inputs; Poseidon or Keccak outer configuration) built once; a case = one inner proof handed to the aggregator: "
           "the honest proof; ~24 (thorough 60) element faults and 4 list faults over all proof components (caps, openings, query-round leaves / siblings / coset evaluations, commit caps, final polynomial, pow witness, public inputs); "
@@ -220,7 +220,7 @@ prop("C06", "exploration", (48, 1200),
      text="Seeded exploration of the in-circuit verifier against the native verifier as reference model, with inner proofs that fail exactly one native check so that a check missing only in the circuit version is not masked.",
      note="Outer acceptance is decided by witness generation + the statement checker SAT (which trusts the gates' eval_filtered); one outer proof per scenario is fully proved and verified. Inner circuits are kept <= 2^9 rows and <= 8 queries so that the outer circuit stays at 2^10-2^12 rows.")
 
-prop("C20", "exploration", (36, 600),
+prop("C20", "exploration", (60, 600),
      rule="one run = either (11/12) a conditional aggregator for one inner circuit shape (seeded program x recursion-compatible configuration; a sibling circuit with the same common data and another key is obtained by changing one constant): "
           "inner (proof, key) variants {valid, element-tampered, false statement from the Byzantine prover, valid proof of the sibling circuit, right proof with the sibling's key, sibling's proof with the right key}; "
           "cells of the matrix condition x variant0 x variant1 for conditionally_verify_proof (every cell in which the two branches differ in validity, a third of the others) and condition x variant for conditionally_verify_proof_or_dummy; "
@@ -232,7 +232,7 @@ prop("C20", "exploration", (36, 600),
      text="Seeded exploration of conditional verification as a matrix over condition and validity of each branch and key, and of cyclic recursion as multi-step histories with alteration of the embedded verifier data.",
      note="Shapes for which the library's dummy_circuit cannot reproduce the common data (a build-time assert) or whose cap height differs from the outer configuration's are outside the or-dummy variant's preconditions and skip that part (probe counts both). Cyclic chains use the standard recursion configuration (2^12-row circuit).")
 
-prop("C11", "exploration", (48, 1200),
+prop("C11", "exploration", (384, 1200),
      rule="one run = one STARK aggregator scenario: a STARK definition from the simulator's family (1/4 with column lookups; also definitions without quotient), a recursion-compatible StarkConfig (ConstantArityBits, 1-4 queries, 1-3 challenges), "
           "and the outer circuit add_virtual_stark_proof_with_pis + verify_stark_proof_circuit; fixed-degree mode (1/2 + all lookup runs) or the mode sized for a maximum degree with min_degree_bits_to_support (circuit size searched so that the prover's "
           "preconditions hold; every supported shorter length proved with verifier_circuit_fri_params). Cases: the valid proof(s); in fixed mode a valid proof of ANOTHER length (must be rejected by the circuit); for every proof 8-16 element faults and 3 list faults "
